@@ -179,7 +179,8 @@ PLANS = {
                         rawmon=[("HBMonitor", "HBMonitor.cfg")]),
                       R("discrace", (0, 0), (1, 1), None, False, programs_fn=discrace_sweep(12, (40, 60), "discrace07"), rawmon=[("HBMonitor", "HBMonitor.cfg")])],
                 assume=["happens-before is computed from the orderings actually passed to the atomics on sequentially consistent interleavings; stale relaxed reads of weaker-than-SC executions are not enumerated"]),
-    "C08": dict(mc=MC("sync", thorough=["t_sync"]), runs=[R("capacity", (300, 5000), (3, 6), "C08", True), R("general", (150, 2000), (3, 5), "C08", True)]),
+    "C08": dict(mc=MC("sync", thorough=["t_sync"]), runs=[R("capacity", (300, 5000), (3, 6), "C08", True), R("general", (150, 2000), (3, 5), "C08", True),
+                                                           R("chain_z", (200, 3000), (2, 4), "C08", True), R("chain_s", (100, 2000), (2, 4), "C08", True)]),
     "C10": dict(mc=MC("sync", "timed", "closeclone", thorough=["t_sync"], bounded=["t_timed"]), spec_l2l1=True, runs=[R("close", (300, 5000), (3, 6), "C10", True), R("general", (150, 2000), (3, 5), "C10", True),
                       R("discrace", (0, 0), (1, 1), "C10", True, own_all=True, programs_fn=discrace_sweep(48, (40, 60), "discrace10"))]),
     "C11": dict(mc=MC("handles", "closeclone", bounded=["t_handles"]), runs=[R("hseq", (0, 0), (1, 1), "C11", True, programs_fn=handle_programs, own_all=True),
@@ -199,7 +200,8 @@ PLANS = {
                                     R("tryfreeze", (300, 6000), (2, 4), None, True, rawmon=[("NonBlocking", "NonBlocking.cfg")]),
                                     R("trystate", (500, 8000), (1, 2), None, True, own_all=True, rawmon=[("NonBlocking", "NonBlocking.cfg")])]),
     "C15": dict(mc=MC("async", thorough=["t_async"]), runs=[R("fdrop", (400, 8000), (4, 8), "C15", True), R("chain", (200, 3000), (2, 6), "C15", True, own_all=True),
-                                      R("fdropfreeze", (0, 0), (1, 1), "C15", True, programs_fn=freeze_sweep("fdrop", (10, 150), (30, 45), "fdropfreeze15"))]),
+                                      R("fdropfreeze", (0, 0), (1, 1), "C15", True, programs_fn=freeze_sweep("fdrop", (10, 150), (30, 45), "fdropfreeze15"),
+                                        rawmon=[("HBMonitor", "HBMonitor.cfg")])]),
     "C16": dict(mc=MC("async", thorough=["t_async"]), runs=[R("poll", (400, 8000), (4, 8), "C16", True),
                                       R("pollfreeze", (0, 0), (1, 1), "C16", True, programs_fn=freeze_sweep("poll", (14, 200), (30, 45), "pollfreeze"))]),
     "C17": dict(mc=[dict(module="SpinMutex", cfg=("MC_SpinMutex.cfg", "MC_SpinMutex.cfg"))], l2=False, tlaps="SpinMutexProof",
@@ -443,7 +445,9 @@ def owns_finding(prop, f):
             return True
         return False
     if k == "crash":
-        return prop in ("C07", "C04")
+        # the harness process died (signal) inside safe API calls: memory safety (C07), integrity (C04), and the properties that
+        # promise that an action is *safe* / *harmless* at any point (dropping futures: C15; spurious polls: C16)
+        return prop in ("C07", "C04", "C15", "C16")
     return False
 
 
